@@ -1,6 +1,7 @@
 package props
 
 import (
+	_ "a0quiet"
 	"io"
 	"os"
 	"testing"
